@@ -51,6 +51,14 @@ def run(ctx: core.Ctx) -> core.Report:
             if el >= 16 and 8 + el <= len(b):
                 inputs.append(("entry", b[8:24] + gen.rbytes(rng, rng.choice([0, 2])), rng.choice([0, 1, 8, 255, b[9] + (b[11] >> 4), b[10] + (b[11] & 15)])))
         inputs.append(("opt", mutate.noncanon_option(rng) + gen.rbytes(rng, rng.choice([0, 0, 4])), None))
+    # entries at the edges of the two 4-bit option counts (0, 1, 14, 15 options per run) and of the 8-bit run indexes
+    for _ in range(ctx.n(60, 600)):
+        c1, c2 = rng.choice([0, 1, 14, 15]), rng.choice([0, 1, 14, 15])
+        i1, i2 = rng.choice([0, 1, 100, 240 - c1]), rng.choice([0, 3, 200, 240 - c2])
+        ty = rng.choice([0, 1, 6, 7])
+        e = bytes([ty, i1, i2, (c1 << 4) | c2]) + rng.randrange(1 << 16).to_bytes(2, "big") + rng.randrange(1 << 16).to_bytes(2, "big") \
+            + bytes([rng.randrange(256)]) + rng.choice([0, 3, 0xFFFFFF]).to_bytes(3, "big") + rng.randrange(1 << 32).to_bytes(4, "big")
+        inputs.append(("entry", e + gen.rbytes(rng, rng.choice([0, 0, 2])), 255))
     ops, post = [], []
     for kind, b, extra in inputs:
         rep.evaluations += 1
